@@ -7,17 +7,53 @@ open Lean Heimdall
 
 namespace Driver.Repo
 
+/-- JSON strings arrive as UTF-8; the model works on octets, one `Char` per byte (as the Go code does) -/
+def bytesOf (s : String) : String := String.ofList (s.toUTF8.toList.map fun b => Char.ofNat b.toNat)
+
+def hexDigit (n : Nat) : Char := if n < 10 then Char.ofNat (48 + n) else Char.ofNat (87 + n)
+
+/-- what is printed for a byte string: the text itself if it is ASCII, `hex:…` otherwise (the harness does the same) -/
+def outStr (s : String) : String :=
+  if s.toList.all (·.toNat < 128) then s
+  else "hex:" ++ String.ofList (s.toList.flatMap fun c => [hexDigit (c.toNat / 16 % 16), hexDigit (c.toNat % 16)])
+
+def globMeta (c : Char) : Bool := c == '{' || c == '}' || c == '[' || c == ']' || c == '!'
+
+def parseGlob : List Char → E (List GTok)
+  | [] => pure []
+  | '\\' :: c :: rest => do pure (.lit c :: (← parseGlob rest))
+  | '*' :: '*' :: rest => do pure (.dstar :: (← parseGlob rest))
+  | '*' :: rest => do pure (.star :: (← parseGlob rest))
+  | '?' :: rest => do pure (.any1 :: (← parseGlob rest))
+  | c :: rest => do
+    if globMeta c || c == '\\' then throw "glob outside the modelled fragment"
+    pure (.lit c :: (← parseGlob rest))
+
+def regexMeta (c : Char) : Bool := "*+?()[]{}|^$".toList.contains c
+
+def parseAtoms : List Char → E (List RAtom)
+  | [] => pure []
+  | '\\' :: c :: rest => do
+    if c.isAlphanum then throw "regex outside the modelled fragment"
+    pure (.lit c :: (← parseAtoms rest))
+  | '.' :: rest => do pure (.dot :: (← parseAtoms rest))
+  | c :: rest => do
+    if regexMeta c || c == '\\' then throw "regex outside the modelled fragment"
+    pure (.lit c :: (← parseAtoms rest))
+
 def parseTM (sep : Char) (j : Json) : E TM := do
   let ty ← str j "type"
-  let v ← str j "value"
+  let v := bytesOf (← str j "value")
   match ty with
   | "exact" => pure (.exact v)
-  | "glob" =>
-    if v.toList.getLast? == some '*' then pure (.globPrefix (String.ofList v.toList.dropLast) sep)
-    else throw "glob outside the modelled shape"
+  | "glob" => pure (.glob (← parseGlob v.toList) sep)
   | "regex" =>
-    if v.toList.head? == some '^' then pure (.regexPrefix (String.ofList (v.toList.drop 1)))
-    else throw "regex outside the modelled shape"
+    let cs := v.toList
+    let aS := cs.head? == some '^'
+    let cs := if aS then cs.drop 1 else cs
+    let aE := cs.getLast? == some '$' && (cs.dropLast.getLast? != some '\\')
+    let cs := if aE then cs.dropLast else cs
+    pure (.regex (← parseAtoms cs) aS aE)
   | _ => throw "bad matcher type"
 
 def parseEsh (s : String) : SlashHandling :=
@@ -33,8 +69,8 @@ def parseRule (drBt : Bool) (j : Json) : E (Option RuleCfg) := do
   | none => pure none
   | some methods =>
     let routes ← (← arr j "routes").mapM fun r => do
-      let pps ← (arrD r "pp").mapM fun p => do pure (← str p "name", ← parseTM '/' p)
-      pure (← str r "path", ({ scheme := strD j "scheme" "", methods, hosts, pps, esh } : RouteM))
+      let pps ← (arrD r "pp").mapM fun p => do pure (bytesOf (← str p "name"), ← parseTM '/' p)
+      pure (bytesOf (← str r "path"), ({ scheme := strD j "scheme" "", methods, hosts, pps, esh } : RouteM))
     pure (some { id := ← str j "id", bt, esh, routes })
 
 def splitTarget (t : String) : String × String :=
@@ -52,11 +88,11 @@ def run (c : Json) : E Json := do
   for op in ← arr c "ops" do
     let k ← str op "op"
     if k == "find" then
-      let (rawPath, _) := splitTarget (← str op "target")
+      let (rawPath, _) := splitTarget (bytesOf (← str op "target"))
       match pathUnescape rawPath with
       | none => out := out ++ [Json.mkObj [("badrequest", Json.bool true)]]
       | some path =>
-        let q : ReqView := { method := ← str op "method", scheme := "http", host := ← str op "host", rawPath, path }
+        let q : ReqView := { method := ← str op "method", scheme := strD op "scheme" "http", host := bytesOf (← str op "host"), rawPath, path }
         if (cands s.index (tokenize (lookupPath q)) []).length ≥ 2 then multi := multi + 1
         let sv := s.serve hasDr q
         match sv.rule, sv.exec with
@@ -66,7 +102,7 @@ def run (c : Json) : E Json := do
           | .argument => out := out ++ [Json.mkObj [("rule", jstr (src ++ "/" ++ rid)), ("exec", jstr "argument")]]
           | .ok caps =>
             out := out ++ [Json.mkObj [("rule", jstr (src ++ "/" ++ rid)), ("exec", jstr "ok"),
-              ("caps", jarr ((sortPairs caps).map fun kv => jstrs [kv.1, kv.2]))]]
+              ("caps", jarr ((sortPairs (caps.map fun kv => (outStr kv.1, outStr kv.2))).map fun kv => jstrs [kv.1, kv.2]))]]
         | _, _ => out := out ++ [Json.mkObj [("rule", Json.null), ("err", jstr "norule")]]
     else
       let src ← str op "src"
@@ -77,7 +113,7 @@ def run (c : Json) : E Json := do
         let rs := rules.filterMap id
         pure (some (if k == "add" then RepoOp.add src rs else RepoOp.upd src rs)))
       match op with
-      | none => out := out ++ [jstr "internal"]
+      | none => out := out ++ [jstr "configuration"]
       | some o =>
         out := out ++ [jstr (if (s.apply o).isSome then "ok" else "internal")]
         s := s.step o
